@@ -1,8 +1,13 @@
 import Driver.Common
 import Driver.Arith
+import Driver.Check
 
 def streamTable : List (String × Drv.StreamDef) := [
-  ("quorum", Drv.Quorum.stream)
+  ("quorum", Drv.Quorum.stream),
+  ("enc", Drv.Enc.stream),
+  ("evcheck", Drv.EvCheck.stream),
+  ("dsign", Drv.Dsign.stream),
+  ("piecefunc", Drv.Piecefunc.stream)
 ]
 
 def main (args : List String) : IO UInt32 := do
